@@ -1,1 +1,259 @@
--- C10 theorems
+/-
+C10 — first-order reliability (`hlrfFORM`, `mvalFOSM`): a model of one HL-RF step over an arbitrary
+real inner product space, and the theorems
+
+* a fixed point of the step lies on the linearised limit state and has `‖u‖ = |β|`;
+* on an affine limit state the step lands, from ANY start, on the exact design point (one step) and
+  stays there;
+* the step and the index are invariant under positive rescaling of the limit-state function;
+* linear limit state + normal marginals through the Nataf map: the U-space limit state is affine, the
+  squared norm of its gradient is `cᵀ (D ρ D) c = Var[g]`, hence `β = E[g] / sd[g]`;
+* for independent variables this is the mean-value (FOSM) index;
+* one variable, any marginal, `g x = x - cth`: `pf = Φ (-β) = F cth`.
+-/
+import Mathlib.Analysis.InnerProductSpace.Basic
+import Mathlib.Analysis.InnerProductSpace.PiL2
+import Mathlib.Data.Matrix.Mul
+import Mathlib.Analysis.Real.Sqrt
+import Mathlib.Tactic.FieldSimp
+import Mathlib.Tactic.Linarith
+import Mathlib.Tactic.NormNum
+import Mathlib.Tactic.Ring
+namespace FF
+
+open scoped RealInnerProductSpace
+
+section HLRF
+variable {E : Type*} [NormedAddCommGroup E] [InnerProductSpace ℝ E]
+
+/-- `beta = ( g( X ) - dot( u_prev, gPrime ) ) / norm( gPrime )` -/
+noncomputable def hlrfBeta (Gu : ℝ) (grad u : E) : ℝ := (Gu - ⟪grad, u⟫) / ‖grad‖
+
+/-- `u_new = -beta * alpha`, `alpha = gPrime / norm( gPrime )` -/
+noncomputable def hlrfStep (Gu : ℝ) (grad u : E) : E :=
+  -(hlrfBeta Gu grad u) • ((1 / ‖grad‖) • grad)
+
+/-- the unit vector `alpha` really is a unit vector -/
+theorem C10_alpha_unit {grad : E} (hg : grad ≠ 0) : ‖(1 / ‖grad‖) • grad‖ = 1 := by
+  have hn : ‖grad‖ ≠ 0 := norm_ne_zero_iff.mpr hg
+  rw [norm_smul, Real.norm_eq_abs, abs_of_nonneg (by positivity)]
+  field_simp
+
+/-- the step always has norm `|β|` -/
+theorem C10_step_norm {grad : E} (hg : grad ≠ 0) (Gu : ℝ) (u : E) :
+    ‖hlrfStep Gu grad u‖ = |hlrfBeta Gu grad u| := by
+  unfold hlrfStep
+  rw [norm_smul, C10_alpha_unit hg, Real.norm_eq_abs, abs_neg, mul_one]
+
+/-- the step always lies on the linearisation-independent ray: `⟪grad, step⟫ = -β ‖grad‖` -/
+theorem C10_inner_step {grad : E} (hg : grad ≠ 0) (Gu : ℝ) (u : E) :
+    ⟪grad, hlrfStep Gu grad u⟫ = -(hlrfBeta Gu grad u) * ‖grad‖ := by
+  have hn : ‖grad‖ ≠ 0 := norm_ne_zero_iff.mpr hg
+  unfold hlrfStep
+  rw [real_inner_smul_right, real_inner_smul_right, real_inner_self_eq_norm_sq]
+  field_simp
+
+/-- 1. A fixed point of the HL-RF step lies on the linearised limit state (`G u = 0`), is the point
+`-β α`, and is at distance `|β|` from the origin. -/
+theorem C10_fixed_point {grad u : E} {Gu : ℝ} (hg : grad ≠ 0) (hfix : u = hlrfStep Gu grad u) :
+    Gu = 0 ∧ u = -(hlrfBeta Gu grad u) • ((1 / ‖grad‖) • grad) ∧ ‖u‖ = |hlrfBeta Gu grad u| := by
+  have hn : ‖grad‖ ≠ 0 := norm_ne_zero_iff.mpr hg
+  refine ⟨?_, hfix, ?_⟩
+  · have h := C10_inner_step hg Gu u
+    rw [← hfix] at h
+    unfold hlrfBeta at h
+    rw [neg_mul, div_mul_cancel₀ _ hn] at h
+    linarith
+  · conv_lhs => rw [hfix]
+    exact C10_step_norm hg Gu u
+
+/-- 2. Affine limit state `G v = ⟪a, v⟫ + b`: from any start the index is `b / ‖a‖`, the step is
+`-(b / ‖a‖²) a`, that point is on the limit state and is a fixed point. -/
+theorem C10_linear_one_step {a : E} (b : ℝ) (ha : a ≠ 0) (u : E) :
+    hlrfBeta (⟪a, u⟫ + b) a u = b / ‖a‖ ∧
+    hlrfStep (⟪a, u⟫ + b) a u = -(b / ‖a‖ ^ 2) • a ∧
+    ⟪a, hlrfStep (⟪a, u⟫ + b) a u⟫ + b = 0 ∧
+    hlrfStep (⟪a, hlrfStep (⟪a, u⟫ + b) a u⟫ + b) a (hlrfStep (⟪a, u⟫ + b) a u)
+      = hlrfStep (⟪a, u⟫ + b) a u := by
+  have hn : ‖a‖ ≠ 0 := norm_ne_zero_iff.mpr ha
+  have hβ : ∀ v : E, hlrfBeta (⟪a, v⟫ + b) a v = b / ‖a‖ := by
+    intro v; unfold hlrfBeta; rw [add_sub_cancel_left]
+  have hs : ∀ v : E, hlrfStep (⟪a, v⟫ + b) a v = -(b / ‖a‖ ^ 2) • a := by
+    intro v
+    unfold hlrfStep
+    rw [hβ v, smul_smul]
+    congr 1
+    field_simp
+  refine ⟨hβ u, hs u, ?_, ?_⟩
+  · rw [hs u, real_inner_smul_right, real_inner_self_eq_norm_sq]
+    field_simp
+    ring
+  · rw [hs, hs]
+
+/-- 3. Positive rescaling of the limit-state function changes neither the index nor the step. -/
+theorem C10_scale_invariance {k : ℝ} (hk : 0 < k) (Gu : ℝ) {grad : E} (hg : grad ≠ 0) (u : E) :
+    hlrfBeta (k * Gu) (k • grad) u = hlrfBeta Gu grad u ∧
+    hlrfStep (k * Gu) (k • grad) u = hlrfStep Gu grad u := by
+  have hn : ‖grad‖ ≠ 0 := norm_ne_zero_iff.mpr hg
+  have hβ : hlrfBeta (k * Gu) (k • grad) u = hlrfBeta Gu grad u := by
+    unfold hlrfBeta
+    rw [real_inner_smul_left, norm_smul, Real.norm_eq_abs, abs_of_pos hk]
+    field_simp
+  refine ⟨hβ, ?_⟩
+  unfold hlrfStep
+  rw [hβ, norm_smul, Real.norm_eq_abs, abs_of_pos hk, smul_smul (1 / (k * ‖grad‖)) k grad]
+  congr 2
+  field_simp
+
+end HLRF
+
+/-! ### Linear limit state, normal marginals, Nataf map -/
+
+section LinearGaussian
+open Matrix
+variable {n : ℕ}
+
+/-- 4a. `g (μ + D L u) = (Lᵀ D c) ⬝ u + (c ⬝ μ + d)`: the U-space limit state is affine. -/
+theorem C10_linear_gaussian_affine (L : Matrix (Fin n) (Fin n) ℝ) (σ μ c : Fin n → ℝ) (d : ℝ)
+    (u : Fin n → ℝ) :
+    c ⬝ᵥ (μ + (diagonal σ).mulVec (L.mulVec u)) + d
+      = (Lᵀ.mulVec ((diagonal σ).mulVec c)) ⬝ᵥ u + (c ⬝ᵥ μ + d) := by
+  have hD : (diagonal σ).mulVec c = c ᵥ* diagonal σ := by
+    rw [← vecMul_transpose, diagonal_transpose]
+  have h : c ⬝ᵥ ((diagonal σ).mulVec (L.mulVec u)) = (Lᵀ.mulVec ((diagonal σ).mulVec c)) ⬝ᵥ u := by
+    rw [dotProduct_mulVec, dotProduct_mulVec, mulVec_transpose, hD]
+  rw [dotProduct_add, h]
+  ring
+
+/-- 4b. `‖Lᵀ D c‖² = cᵀ (D ρ D) c` when `L Lᵀ = ρ`: the squared norm of the U-space gradient is the
+variance of `g`. -/
+theorem C10_variance (L ρ : Matrix (Fin n) (Fin n) ℝ) (σ c : Fin n → ℝ) (hL : L * Lᵀ = ρ) :
+    (Lᵀ.mulVec ((diagonal σ).mulVec c)) ⬝ᵥ (Lᵀ.mulVec ((diagonal σ).mulVec c))
+      = c ⬝ᵥ ((diagonal σ * ρ * diagonal σ).mulVec c) := by
+  have hD : (diagonal σ).mulVec c = c ᵥ* diagonal σ := by
+    rw [← vecMul_transpose, diagonal_transpose]
+  rw [← hL, ← mulVec_mulVec, ← mulVec_mulVec, ← mulVec_mulVec, dotProduct_mulVec c, ← hD,
+    dotProduct_mulVec _ L, ← mulVec_transpose]
+
+/-- coordinates: the Euclidean inner product is `dotProduct` -/
+theorem C10_inner_toLp (w u : Fin n → ℝ) :
+    ⟪(WithLp.toLp 2 w : EuclideanSpace ℝ (Fin n)), WithLp.toLp 2 u⟫ = w ⬝ᵥ u := by
+  rw [EuclideanSpace.inner_toLp_toLp, star_trivial, dotProduct_comm]
+
+/-- coordinates: the Euclidean norm is `√(w ⬝ w)` -/
+theorem C10_norm_toLp (w : Fin n → ℝ) :
+    ‖(WithLp.toLp 2 w : EuclideanSpace ℝ (Fin n))‖ = Real.sqrt (w ⬝ᵥ w) := by
+  rw [norm_eq_sqrt_real_inner, C10_inner_toLp]
+
+/-- 4c. Linear limit state, normal marginals, correlation `ρ = L Lᵀ`: from any start `u` the HL-RF
+index is `(c ⬝ μ + d) / √(cᵀ D ρ D c) = E[g] / sd[g]` — the exact reliability index. -/
+theorem C10_linear_gaussian_beta (L ρ : Matrix (Fin n) (Fin n) ℝ) (σ μ c : Fin n → ℝ) (d : ℝ)
+    (hL : L * Lᵀ = ρ) (hsd : 0 < Real.sqrt (c ⬝ᵥ ((diagonal σ * ρ * diagonal σ).mulVec c)))
+    (u : Fin n → ℝ) :
+    hlrfBeta (c ⬝ᵥ (μ + (diagonal σ).mulVec (L.mulVec u)) + d)
+        (WithLp.toLp 2 (Lᵀ.mulVec ((diagonal σ).mulVec c)) : EuclideanSpace ℝ (Fin n))
+        (WithLp.toLp 2 u)
+      = (c ⬝ᵥ μ + d) / Real.sqrt (c ⬝ᵥ ((diagonal σ * ρ * diagonal σ).mulVec c)) := by
+  set w := Lᵀ.mulVec ((diagonal σ).mulVec c) with hw
+  have hnorm : ‖(WithLp.toLp 2 w : EuclideanSpace ℝ (Fin n))‖
+      = Real.sqrt (c ⬝ᵥ ((diagonal σ * ρ * diagonal σ).mulVec c)) := by
+    rw [C10_norm_toLp, hw, C10_variance L ρ σ c hL]
+  have hw0 : (WithLp.toLp 2 w : EuclideanSpace ℝ (Fin n)) ≠ 0 := by
+    rw [← norm_ne_zero_iff, hnorm]; exact hsd.ne'
+  rw [C10_linear_gaussian_affine, ← C10_inner_toLp w u,
+    (C10_linear_one_step (c ⬝ᵥ μ + d) hw0 (WithLp.toLp 2 u)).1, hnorm]
+
+/-- 4c, coordinate phrasing: `(G u - w ⬝ u) / √(w ⬝ w)` with `w = Lᵀ D c`. -/
+theorem C10_linear_gaussian_beta' (L ρ : Matrix (Fin n) (Fin n) ℝ) (σ μ c : Fin n → ℝ) (d : ℝ)
+    (hL : L * Lᵀ = ρ) (u : Fin n → ℝ) :
+    ((c ⬝ᵥ (μ + (diagonal σ).mulVec (L.mulVec u)) + d)
+        - (Lᵀ.mulVec ((diagonal σ).mulVec c)) ⬝ᵥ u)
+        / Real.sqrt ((Lᵀ.mulVec ((diagonal σ).mulVec c)) ⬝ᵥ (Lᵀ.mulVec ((diagonal σ).mulVec c)))
+      = (c ⬝ᵥ μ + d) / Real.sqrt (c ⬝ᵥ ((diagonal σ * ρ * diagonal σ).mulVec c)) := by
+  rw [C10_linear_gaussian_affine, C10_variance L ρ σ c hL, add_sub_cancel_left]
+
+/-- 5a. independent variables: `cᵀ (D 1 D) c = Σ (c_i σ_i)²` -/
+theorem C10_fosm_variance (σ c : Fin n → ℝ) :
+    c ⬝ᵥ ((diagonal σ * (1 : Matrix (Fin n) (Fin n) ℝ) * diagonal σ).mulVec c)
+      = ∑ i, (c i * σ i) ^ 2 := by
+  rw [mul_one, diagonal_mul_diagonal]
+  simp only [dotProduct, mulVec_diagonal]
+  exact Finset.sum_congr rfl fun i _ => by ring
+
+/-- 5. independent variables: the mean-value (FOSM) index `g(μ) / √(Σ (a_i σ_i)²)` is the exact index
+of item 4. -/
+theorem C10_fosm_agrees (σ μ c : Fin n → ℝ) (d : ℝ) :
+    (c ⬝ᵥ μ + d) / Real.sqrt (∑ i, (c i * σ i) ^ 2)
+      = (c ⬝ᵥ μ + d)
+        / Real.sqrt (c ⬝ᵥ ((diagonal σ * (1 : Matrix (Fin n) (Fin n) ℝ) * diagonal σ).mulVec c)) := by
+  rw [C10_fosm_variance]
+
+end LinearGaussian
+
+/-! ### One variable, arbitrary marginal -/
+
+/-- 6. `g x = x - cth`, marginal CDF `F` with quantile `Finv`: the U-space limit state
+`G u = Finv (Φ u) - cth` vanishes at `u* = Φinv (F cth)`; with the increasing orientation `u* = -β`,
+so `pf = Φ (-β) = F cth`. -/
+theorem C10_one_variable (F Finv Φ Φinv : ℝ → ℝ) (cth : ℝ)
+    (hΦ : Φ (Φinv (F cth)) = F cth) (hF : Finv (F cth) = cth) :
+    Finv (Φ (Φinv (F cth))) - cth = 0 ∧
+    ∀ β : ℝ, Φinv (F cth) = -β → Φ (-β) = F cth := by
+  refine ⟨by rw [hΦ, hF, sub_self], ?_⟩
+  intro β hβ
+  rw [← hβ, hΦ]
+
+/-- 6, closed form: `β = -Φinv (F cth)` gives `Φ (-β) = F cth`. -/
+theorem C10_one_variable_pf (F Φ Φinv : ℝ → ℝ) (cth : ℝ) (hΦ : Φ (Φinv (F cth)) = F cth) :
+    Φ (-(-Φinv (F cth))) = F cth := by
+  rw [neg_neg, hΦ]
+
+/-- 6, link to the HL-RF model in one dimension (`E = ℝ`): if the iteration has converged at `u`
+with positive gradient `g'` then `u = -β`, so `pf = Φ (-β) = Φ u`; combined with uniqueness of the
+zero of `G` (`G` injective — strictly increasing `Finv ∘ Φ`) this is `F cth`. -/
+theorem C10_one_variable_hlrf (F Finv Φ Φinv : ℝ → ℝ) (cth : ℝ)
+    (hΦ : Φ (Φinv (F cth)) = F cth) (hF : Finv (F cth) = cth)
+    (hinj : ∀ u v : ℝ, Finv (Φ u) - cth = Finv (Φ v) - cth → u = v)
+    {g' u : ℝ} (hg' : 0 < g') (hfix : u = hlrfStep (Finv (Φ u) - cth) g' u) :
+    Φ (-(hlrfBeta (Finv (Φ u) - cth) g' u)) = F cth := by
+  obtain ⟨hG, hu, -⟩ := C10_fixed_point hg'.ne' hfix
+  have hunit : (1 / ‖g'‖) • g' = (1 : ℝ) := by
+    rw [Real.norm_eq_abs, abs_of_pos hg', smul_eq_mul]; field_simp
+  rw [hunit, smul_eq_mul, mul_one] at hu
+  have hustar : u = Φinv (F cth) := by
+    apply hinj
+    rw [hG, hΦ, hF, sub_self]
+  rw [← hu, hustar, hΦ]
+
+/-! ### Non-vacuity -/
+
+/-- item 2 in `ℝ²` coordinates: `a = (1,1)`, `b = -1`: the design point `-(b/‖a‖²) a = (1/2, 1/2)` is on
+the limit state `x + y - 1 = 0`, and `β² = b²/‖a‖² = 1/2`. -/
+example :
+    let a : Fin 2 → ℝ := ![1, 1]
+    let b : ℝ := -1
+    a ⬝ᵥ a = 2 ∧ -(b / (a ⬝ᵥ a)) • a = ![1 / 2, 1 / 2] ∧ a ⬝ᵥ (-(b / (a ⬝ᵥ a)) • a) + b = 0 := by
+  intro a b
+  have h2 : a ⬝ᵥ a = 2 := by norm_num [a, dotProduct, Fin.sum_univ_two]
+  refine ⟨h2, ?_, ?_⟩
+  · rw [h2]; ext i; fin_cases i <;> norm_num [a, b]
+  · rw [h2]; norm_num [a, b, dotProduct, Fin.sum_univ_two]
+
+/-- item 2 instantiated in `E = ℝ`: `G v = 2 v - 6`, any start (here `10`): `β = -3`, step lands on
+`3`, which is the root. -/
+example : hlrfBeta ((2 : ℝ) * 10 + -6) (2 : ℝ) (10 : ℝ) = -3 ∧
+    hlrfStep ((2 : ℝ) * 10 + -6) (2 : ℝ) (10 : ℝ) = 3 := by
+  have h := C10_linear_one_step (a := (2 : ℝ)) (-6) (by norm_num) (10 : ℝ)
+  have hin : ⟪(2 : ℝ), (10 : ℝ)⟫ = 2 * 10 := by simp [mul_comm]
+  rw [hin] at h
+  refine ⟨?_, ?_⟩
+  · rw [h.1]; norm_num
+  · rw [h.2.1]; norm_num
+
+/-- item 4/5 instance: `n = 2`, independent, `σ = (3, 4)`, `c = (1, 1)`: `Var[g] = 25`. -/
+example : (![1, 1] : Fin 2 → ℝ) ⬝ᵥ
+    ((Matrix.diagonal ![3, 4] * (1 : Matrix (Fin 2) (Fin 2) ℝ) * Matrix.diagonal ![3, 4]).mulVec
+      ![1, 1]) = 25 := by
+  rw [C10_fosm_variance]; norm_num [Fin.sum_univ_two]
+
+end FF
